@@ -339,11 +339,29 @@ def jitter_case(recipe):
         call_jitter(a, d, delta, recipe['seed2'])
         header, out = read_csv(b)
         raw = [open(p, 'rb').read() for p in (b, c, d)]
+        xproc = []
+        if recipe.get('xproc'):
+            # the same command in fresh interpreters with other string-hash salts: same seed, same file
+            import subprocess
+            from harness import common as C
+            for hs in (1, 2):
+                e = os.path.join(tmp, f'x{hs}.csv')
+                env = dict(os.environ, PYTHONHASHSEED=str(hs), PYTHONPATH=str(C.REPO))
+                cmd = [C.PY, '-m', 'eudoxia', 'tools', 'jitter', a, e, repr(float(delta))] + \
+                      ([] if seed is None else ['-s', str(seed)])
+                pr = subprocess.run(cmd, env=env, capture_output=True, text=True, timeout=300)
+                xproc.append((hs, pr.returncode, open(e, 'rb').read() if os.path.exists(e) else None, pr.stderr[-200:]))
     finally:
         shutil.rmtree(tmp, ignore_errors=True)
     eff = 42 if seed is None else seed
     hits = jitter_monitor(rows, out, header, delta, recipe, raw[0] == raw[1],
                           (raw[0] == raw[2]) if recipe['seed2'] != eff else None)
+    for hs, rc, data, err in xproc:
+        if rc != 0 or data is None:
+            hits.append(hit(f'jitter: `eudoxia tools jitter` failed in a fresh process (exit {rc}): {err}', 'jitter-cli', recipe))
+        elif data != raw[0]:
+            hits.append(hit(f'jitter: seed {seed}, delta {delta}: a fresh interpreter (PYTHONHASHSEED={hs}) writes a different '
+                            f'file than this process', 'jitter-repro', recipe))
     pin, pout = pipelines_of(rows), pipelines_of(out)
     g = np.random.default_rng(eff)
     draws = [float(g.uniform(0, delta)) for _ in pin]
@@ -548,6 +566,7 @@ def run(ctx):
                 seen.add(tuple(c['inp']))
     for i in range(ctx.budget(600, 12000)):
         rec = gen_jitter(ctx.case_rng('G-jitter', i))
+        rec['xproc'] = i % 40 == 0 and len({r[0] for r in rec['rows']}) > 1
         cs, h, draws = jitter_case(rec)
         cases += cs
         hits += h
